@@ -163,7 +163,14 @@ def drive(rec, rng, case):
     present = sorted(case["truth"]["tracks"])
     for key in present:
         inst, diff = key.split("/")
-        tr = chart.instrument_tracks[harness.Instrument[inst]][harness.Difficulty[diff]]
+        tr = chart.instrument_tracks.get(harness.Instrument[inst], {}).get(harness.Difficulty[diff])
+        if tr is None:
+            # the text has this section: the rate of a track that IS in the file cannot be "absent track"
+            rec.ev()
+            rec.violation("must-return", f"the text has a [{model.header(inst, diff)}] section with {len(case['truth']['tracks'][key]['groups'])} notes but the parsed "
+                          f"chart has no such track: notes_per_second({inst}, {diff}) can only raise", {"text": text, "instrument": inst, "difficulty": diff, "args": []},
+                          "track-in-text-absent-from-chart")
+            continue
         notes = list(tr.note_events)
         if not notes:
             call(rec, chart, text, inst, diff, (), "error:noteless_track")
